@@ -143,4 +143,49 @@ PROPS = {
          'env: random histories up to 200 operations over 20 names incl. non-ASCII; eval: trees with identifiers in random letter case. Falsifier: an independent BTreeMap reference keyed by to_lowercase (harness/src/oracle.rs)',
     trusted=['str::to_lowercase decides which spellings are the same name (theorems hold for every fold function)'],
  ),
+ 'C08': dict(
+    modules=['SlacProps.C08'],
+    streams=[
+        dict(name='evalill', n=n(30000, 1000000), view='first', laws=['no_crash']),
+        dict(name='deep:eval', n=n(4000, 100000), view='first', laws=['no_crash']),
+        dict(name='optill', n=n(20000, 500000), view='first', oracle='none', laws=['no_crash'], case_timeout=20.0),
+        dict(name='deep:opt', n=n(3000, 100000), view='first', oracle='none', laws=['no_crash'], case_timeout=20.0),
+        dict(name='deep:chkvf', n=n(3000, 100000), view='first', oracle='none', laws=['no_crash']),
+        dict(name='deep:chkbool', n=n(3000, 100000), view='first', oracle='none', laws=['no_crash']),
+        dict(name='deep:json', n=n(3000, 100000), view='jsonclass', oracle='none', laws=['no_crash']),
+        dict(name='deep:tcmp', n=n(3000, 100000), model=False, oracle='none', laws=['no_crash']),
+    ],
+    rule='ill-formed generator: all 17 operators in unary/binary/ternary position, empty and odd names, non-finite and array literals, wrong argument counts, registered and unregistered calls; '
+         'deep:* = one spine nested 1..64 levels with small random siblings. Every case runs in a worker process; compared observation: ok / err / crash / timeout class only. non-trivial = tree has an operator/call/array node',
+    trusted=['Rust stack-frame sizes and wall-clock are observed by the child-process run, not proved'],
+ ),
+ 'C09': dict(
+    modules=['SlacProps.C09'], regen=True, builds=['default', 'checked', 'zero', 'zerochecked'],
+    streams=[dict(name='call', build=b, n=n(60, 2500), oracle='none', rust_oracle=True, laws=['no_crash'], case_timeout=20.0) for b in ['default', 'checked', 'zero', 'zerochecked']] +
+            [dict(name='re', n=n(20000, 500000), oracle='none', laws=['no_crash'])],
+    rule='call: every registered builtin x n generated argument lists (7/8 of the documented kinds with boundary magnitudes: NaN, +-inf, +-0, -1, 0.5, 2^53, 2^64, 1e300 as indices/counts/dates/code points; '
+         'empty and non-ASCII strings; malformed formats and patterns; arrays of 0, 1, 20, 21, 30-300 elements; 1/8 arbitrary kinds and counts 0..5), in worker processes, in 4 builds '
+         '(overflow checks on/off x zero_based_strings off/on). The answer is also compared with the model (unmodelled calls are skipped and counted). non-trivial: every case',
+    trusted=[FLOAT_TB, 'panics inside chrono / slice::sort / regex-lite, memory and time are visible only to the crash-observing run'],
+ ),
+ 'C14': dict(
+    modules=['SlacProps.C14'], regen=True,
+    streams=[
+        dict(name='rep', n=n(100, 1500), model=False, oracle='none', laws=['stable']),
+        dict(name='call', n=n(60, 2500), oracle='none', repeat_process=True),
+    ],
+    rule='rep: every pure builtin x n argument lists, each evaluated 20 times in one process with other calls in between; call: the same lists evaluated in two separate processes (differently seeded hashers) and compared, '
+         'and compared with the model (a Lean function of the arguments). Arrays whose elements are equal across kinds (1, \'1\', true) are over-represented',
+    trusted=[FLOAT_TB, '"fresh process, different hasher seed" is an observation, not a theorem'],
+ ),
+ 'C18': dict(
+    modules=['SlacProps.C18'],
+    streams=[
+        dict(name='re', n=n(20000, 1000000), oracle='none'),
+        dict(name='relaw', n=n(20000, 1000000), model=False, oracle='none', laws=['ok']),
+    ],
+    rule='re: the four wrappers on haystacks (empty, ASCII, non-ASCII) x patterns (literals, classes, repetitions, alternations, groups incl. optional/nested/named, anchors, empty-matching, invalid) x replacements (plain, $-references) x limits, '
+         'with the raw regex-lite answers shipped in the case so that the wrapper logic is compared exactly; relaw: the property\'s cross-function relations evaluated on the builtins (is_match vs find, capture shape/length, replace limit via match spans, escaped literals vs contains/count/replace, invalid patterns)',
+    trusted=['regex-lite is not modelled: theorems are relative to the stated engine laws (LawfulEngine, ReplacenSplices, LiteralLaw), which relaw samples as tests of the library'],
+ ),
 }
